@@ -285,8 +285,6 @@ theorem get2_upInner {n nt : Nat} (m : Array K) (rb kup : Nat) (hsz : n*nt ≤ m
 
 /-! ### systems of equations and elementary row operations (on the 2-D view) -/
 
-/-- the 2-D view of a flat augmented matrix -/
-def view (nt : Nat) (m : Array K) : Nat → Nat → K := get2 nt m
 
 /-- `x` solves the equations of the augmented matrix `M` whose right-hand side is column `c` -/
 def Sol (n : Nat) (M : Nat → Nat → K) (x : Nat → K) (c : Nat) : Prop :=
@@ -439,18 +437,14 @@ theorem pivot_fold {nt : Nat} (m : Array K) (k t : Nat) :
     generalize (List.range' (k+1) t).foldl (pivotStep m nt k) k = b at h1 h2 h3
     unfold pivotStep
     rw [absv_eq_abs, absv_eq_abs]
-    show let b' := if |get2 nt m b k| < |get2 nt m (k+1+t) k| then k+1+t else b; _
-    intro b'
-    by_cases hlt : |get2 nt m b k| < |get2 nt m (k+1+t) k|
-    · have hb' : b' = k+1+t := if_pos hlt
-      rw [hb']
+    by_cases hlt : |rd m (nt * b + k)| < |rd m (nt * (k + 1 + t) + k)|
+    · rw [if_pos hlt]
       refine ⟨by omega, by omega, ?_⟩
       intro i hi1 hi2
       by_cases hi : i = k+1+t
       · rw [hi]
       · exact le_trans (h3 i hi1 (by omega)) (le_of_lt hlt)
-    · have hb' : b' = b := if_neg hlt
-      rw [hb']
+    · rw [if_neg hlt]
       refine ⟨h1, by omega, ?_⟩
       intro i hi1 hi2
       by_cases hi : i = k+1+t
@@ -468,18 +462,18 @@ theorem pivotRow_spec {n nt : Nat} (m : Array K) (k : Nat) (hk : k < n) :
   exact h3 i hi1 (by omega)
 
 theorem elim_fold {n nt : Nat} (tol : K) (htol : 0 < tol) (hn : n ≤ nt) (m : Array K) (k : Nat)
-    (hsz : n*nt ≤ m.size) (hk : k < n) (hlz : LowerZero n (view nt m) k)
+    (hsz : n*nt ≤ m.size) (hk : k < n) (hlz : LowerZero n (get2 nt m) k)
     (t : Nat) (ht : t ≤ n - (k+1)) :
     match (List.range' (k+1) t).foldl (elimStep tol nt nt k) (some m) with
-    | none => 0 < t ∧ |view nt m k k| < tol
-    | some m' => m'.size = m.size ∧ RowOps n nt (view nt m) (view nt m') ∧
-        (∀ i j, i ≤ k → j < nt → view nt m' i j = view nt m i j) ∧
-        LowerZero n (view nt m') k ∧ (∀ i, k < i → i < k+1+t → view nt m' i k = 0) ∧
-        (0 < t → ¬ |view nt m k k| < tol) := by
+    | none => 0 < t ∧ |get2 nt m k k| < tol
+    | some m' => m'.size = m.size ∧ RowOps n nt (get2 nt m) (get2 nt m') ∧
+        (∀ i j, i ≤ k → j < nt → get2 nt m' i j = get2 nt m i j) ∧
+        LowerZero n (get2 nt m') k ∧ (∀ i, k < i → i < k+1+t → get2 nt m' i k = 0) ∧
+        (0 < t → ¬ |get2 nt m k k| < tol) := by
   induction t with
   | zero =>
     simp only [List.range'_zero, List.foldl_nil]
-    refine ⟨rfl, RowOps.refl _ (fun _ _ _ _ => rfl), fun _ _ _ _ => rfl, hlz, ?_, ?_⟩
+    refine ⟨by simp, RowOps.refl _ (fun _ _ _ _ => rfl), by simp, hlz, ?_, ?_⟩
     · intro i h1 h2; omega
     · intro h; omega
   | succ t ih =>
@@ -496,20 +490,20 @@ theorem elim_fold {n nt : Nat} (tol : K) (htol : 0 < tol) (hn : n ≤ nt) (m : A
       obtain ⟨hs, hro, hrows, hlz', hcol, hpiv⟩ := ih
       have hrr : k + 1 + t < n := by omega
       have hknt : k < nt := by omega
-      have hdk : get2 nt m' k k = view nt m k k := hrows k k (le_refl _) hknt
+      have hdk : get2 nt m' k k = get2 nt m k k := hrows k k (le_refl _) hknt
       simp only [elimStep]
       show (match (if absv (get2 nt m' k k) < tol then none else
         some (axpyRow nt nt (k+1+t) k (-(get2 nt m' (k+1+t) k) / get2 nt m' k k) m')) with
         | none => _ | some m'' => _)
       rw [absv_eq_abs, hdk]
-      by_cases hd : |view nt m k k| < tol
+      by_cases hd : |get2 nt m k k| < tol
       · rw [if_pos hd]
         exact ⟨by omega, hd⟩
       · rw [if_neg hd]
-        have hdne : view nt m k k ≠ 0 := by
+        have hdne : get2 nt m k k ≠ 0 := by
           intro h0; rw [h0, abs_zero] at hd; exact hd htol
         obtain ⟨hs2, hg2⟩ := get2_axpyRow (n := n) m' (k+1+t) k
-          (-(get2 nt m' (k+1+t) k) / view nt m k k) (by rw [hs]; exact hsz) hrr (by omega)
+          (-(get2 nt m' (k+1+t) k) / get2 nt m k k) (by rw [hs]; exact hsz) hrr (by omega)
         refine ⟨by rw [hs2, hs], ?_, ?_, ?_, ?_, fun _ => hd⟩
         · exact RowOps.axpy _ _ (k+1+t) k _ hro hrr hk (by omega)
             (fun i j hi hj => hg2 i j hj)
@@ -534,3 +528,293 @@ theorem elim_fold {n nt : Nat} (tol : K) (htol : 0 < tol) (hn : n ≤ nt) (m : A
             field_simp
             ring
           · rw [if_neg hir]; exact hcol i hi1 (by omega)
+
+/-- invariant of the forward loop once the columns `< k` are done -/
+structure FwdInv (n nt : Nat) (tol : K) (m0 m : Array K) (k : Nat) : Prop where
+  size : m.size = m0.size
+  ops : RowOps n nt (get2 nt m0) (get2 nt m)
+  lz : LowerZero n (get2 nt m) k
+  piv : ∀ k', k' < k → k' + 1 < n → ¬ |get2 nt m k' k'| < tol
+
+/-- why the forward loop gave up: at some column `k` (not the last) every candidate
+pivot of the reduced matrix is below `tol` -/
+def TinyColumn (n nt : Nat) (tol : K) (m0 : Array K) : Prop :=
+  ∃ k mk, k + 1 < n ∧ FwdInv n nt tol m0 mk k ∧
+    ∀ i, k ≤ i → i < n → |get2 nt mk i k| < tol
+
+theorem forward_fold {n nb : Nat} (tol : K) (htol : 0 < tol) (m0 : Array K)
+    (hsz : n*(n+nb) ≤ m0.size) (t : Nat) (ht : t ≤ n) :
+    match (List.range t).foldl (fwdStep tol n nb) (some m0) with
+    | none => TinyColumn n (n+nb) tol m0
+    | some m => FwdInv n (n+nb) tol m0 m t := by
+  induction t with
+  | zero =>
+    simp only [List.range_zero, List.foldl_nil]
+    exact ⟨rfl, RowOps.refl _ (fun _ _ _ _ => rfl), fun i j _ hj _ => by omega,
+      fun k' hk' _ => by omega⟩
+  | succ t ih =>
+    have ih := ih (by omega)
+    rw [List.range_succ, List.foldl_append]
+    simp only [List.foldl_cons, List.foldl_nil]
+    cases hprev : (List.range t).foldl (fwdStep tol n nb) (some m0) with
+    | none =>
+      rw [hprev] at ih
+      exact ih
+    | some m =>
+      rw [hprev] at ih
+      have htn : t < n := by omega
+      have hn : n ≤ n + nb := by omega
+      have hszm : n*(n+nb) ≤ m.size := by rw [ih.size]; exact hsz
+      obtain ⟨hb1, hb2, hbmax⟩ := pivotRow_spec (nt := n+nb) m t htn
+      obtain ⟨hs1, hg1⟩ := get2_swapRows (n := n) (nt := n+nb) m t (pivotRow m (n+nb) n t)
+        hszm htn hb2
+      simp only [fwdStep, elimBelow]
+      generalize hbdef : pivotRow m (n+nb) n t = b at hb1 hb2 hbmax hs1 hg1
+      generalize hm1 : swapRows (n+nb) (n+nb) t b m = m1 at hs1 hg1
+      have hlz1 : LowerZero n (get2 (n+nb) m1) t := by
+        intro i j hi hj hji
+        show get2 (n+nb) m1 i j = 0
+        rw [hg1 i j (by omega)]
+        by_cases h1 : i = t
+        · rw [if_pos h1]; exact ih.lz b j hb2 hj (by omega)
+        · rw [if_neg h1]
+          by_cases h2 : i = b
+          · rw [if_pos h2]; exact ih.lz t j htn hj hj
+          · rw [if_neg h2]; exact ih.lz i j hi hj hji
+      have hops1 : RowOps n (n+nb) (get2 (n+nb) m0) (get2 (n+nb) m1) :=
+        RowOps.swap _ _ t b ih.ops htn hb2 (fun i j hi hj => hg1 i j hj)
+      have hel := elim_fold tol htol hn m1 t (by rw [hs1]; exact hszm) htn hlz1
+        (n - (t+1)) (le_refl _)
+      cases hres : (List.range' (t+1) (n - (t+1))).foldl (elimStep tol (n+nb) (n+nb) t) (some m1) with
+      | none =>
+        rw [hres] at hel
+        obtain ⟨hpos, htiny⟩ := hel
+        refine ⟨t, m, by omega, ih, ?_⟩
+        intro i hi1 hi2
+        have e : get2 (n+nb) m1 t t = get2 (n+nb) m b t := by
+          show get2 (n+nb) m1 t t = _
+          rw [hg1 t t (by omega), if_pos rfl]
+        rw [e] at htiny
+        exact lt_of_le_of_lt (hbmax i hi1 hi2) htiny
+      | some m' =>
+        rw [hres] at hel
+        obtain ⟨hs, hro, hrows, hlz', hcol, hpiv⟩ := hel
+        refine ⟨by rw [hs, hs1, ih.size], hops1.trans hro, ?_, ?_⟩
+        · intro i j hi hj hji
+          by_cases hjt : j = t
+          · subst hjt; exact hcol i hji (by omega)
+          · exact hlz' i j hi (by omega) hji
+        · intro k' hk' hk'n
+          by_cases hkt : k' = t
+          · subst hkt
+            rw [hrows k' k' (le_refl _) (by omega)]
+            exact hpiv (by omega)
+          · rw [hrows k' k' (by omega) (by omega)]
+            have e : get2 (n+nb) m1 k' k' = get2 (n+nb) m k' k' := by
+              show get2 (n+nb) m1 k' k' = _
+              rw [hg1 k' k' (by omega), if_neg hkt, if_neg (by omega)]
+            rw [e]
+            exact ih.piv k' (by omega) hk'n
+
+/-- the forward phase of the repaired code: either it reduces the system to upper
+triangular form by row operations, with every pivot but possibly the last `≥ tol`, or it
+stops at a column all of whose candidate pivots are below `tol` -/
+theorem forward_spec {n nb : Nat} (tol : K) (htol : 0 < tol) (m0 : Array K)
+    (hsz : n*(n+nb) ≤ m0.size) :
+    match forward tol n nb m0 with
+    | none => TinyColumn n (n+nb) tol m0
+    | some m => FwdInv n (n+nb) tol m0 m n :=
+  forward_fold tol htol m0 hsz n (le_refl _)
+
+/-! ### back substitution -/
+
+theorem up_fold_all {n nt : Nat} (m1 : Array K) (rb : Nat) (hsz : n*nt ≤ m1.size)
+    (hrb : rb < n) (hn : n ≤ nt) (hz : ∀ j, j < rb → get2 nt m1 rb j = 0)
+    (s : Nat) (hs : s ≤ rb) :
+    ((List.range s).foldl (upRow nt nt rb) m1).size = m1.size ∧
+    RowOps n nt (get2 nt m1) (get2 nt ((List.range s).foldl (upRow nt nt rb) m1)) ∧
+    ∀ i j, j < nt → get2 nt ((List.range s).foldl (upRow nt nt rb) m1) i j =
+      if rb - s ≤ i ∧ i < rb ∧ rb ≤ j then
+        get2 nt m1 i j + (-(get2 nt m1 i rb) / get2 nt m1 rb rb) * get2 nt m1 rb j
+      else get2 nt m1 i j := by
+  induction s with
+  | zero =>
+    refine ⟨by simp, RowOps.refl _ (fun _ _ _ _ => rfl), ?_⟩
+    intro i j hj
+    have : ¬ (rb - 0 ≤ i ∧ i < rb ∧ rb ≤ j) := by omega
+    rw [if_neg this]; rfl
+  | succ s ih =>
+    obtain ⟨hsize, hro, hg⟩ := ih (by omega)
+    rw [List.range_succ, List.foldl_append]
+    simp only [List.foldl_cons, List.foldl_nil]
+    generalize (List.range s).foldl (upRow nt nt rb) m1 = m at hsize hro hg
+    have hkup : rb - s - 1 < n := by omega
+    obtain ⟨hs2, hg2⟩ := get2_upInner (n := n) m rb (rb - s - 1) (by rw [hsize]; exact hsz)
+      hrb hkup (by omega) hn
+    have hrbnt : rb < nt := by omega
+    -- rows `kup` and `rb` of the current matrix are still those of `m1`
+    have ek : ∀ j, j < nt → get2 nt m (rb - s - 1) j = get2 nt m1 (rb - s - 1) j := by
+      intro j hj; rw [hg _ j hj, if_neg (by omega)]
+    have er : ∀ j, j < nt → get2 nt m rb j = get2 nt m1 rb j := by
+      intro j hj; rw [hg _ j hj, if_neg (by omega)]
+    refine ⟨by simp only [upRow]; rw [hs2, hsize], ?_, ?_⟩
+    · refine hro.trans (RowOps.axpy _ _ (rb - s - 1) rb
+        (-(get2 nt m1 (rb - s - 1) rb) / get2 nt m1 rb rb)
+        (RowOps.refl _ (fun _ _ _ _ => rfl)) hkup hrb (by omega) ?_)
+      intro i j hi hj
+      show get2 nt (upRow nt nt rb m s) i j = _
+      simp only [upRow]
+      rw [hg2 i j hj]
+      by_cases h1 : i = rb - s - 1
+      · rw [if_pos h1]
+        by_cases h2 : rb ≤ j
+        · rw [if_pos ⟨h1, h2⟩, ek rb hrbnt, er rb hrbnt]
+        · rw [if_neg (by omega)]
+          have : get2 nt m rb j = 0 := by rw [er j hj]; exact hz j (by omega)
+          show get2 nt m i j = get2 nt m (rb - s - 1) j + _ * get2 nt m rb j
+          rw [this, h1]; ring
+      · rw [if_neg (by omega), if_neg h1]
+    · intro i j hj
+      simp only [upRow]
+      rw [hg2 i j hj]
+      by_cases h1 : i = rb - s - 1
+      · subst h1
+        by_cases h2 : rb ≤ j
+        · rw [if_pos ⟨rfl, h2⟩, if_pos ⟨by omega, by omega, h2⟩, ek j hj, ek rb hrbnt,
+            er rb hrbnt, er j hj]
+        · rw [if_neg (by omega), if_neg (by omega)]; exact ek j hj
+      · rw [if_neg (by omega), hg i j hj]
+        by_cases h3 : rb - s ≤ i ∧ i < rb ∧ rb ≤ j
+        · rw [if_pos h3, if_pos ⟨by omega, h3.2.1, h3.2.2⟩]
+        · rw [if_neg h3, if_neg (by omega)]
+
+/-- `upAll`: every row above `rb` gets `-m[i,rb]/m[rb,rb]` times row `rb` added (on the
+columns `≥ rb`; row `rb` vanishes left of the diagonal, so this is a row operation) -/
+theorem upAll_spec {n nt : Nat} (m1 : Array K) (rb : Nat) (hsz : n*nt ≤ m1.size)
+    (hrb : rb < n) (hn : n ≤ nt) (hz : ∀ j, j < rb → get2 nt m1 rb j = 0) :
+    (upAll nt nt rb m1).size = m1.size ∧
+    RowOps n nt (get2 nt m1) (get2 nt (upAll nt nt rb m1)) ∧
+    ∀ i j, j < nt → get2 nt (upAll nt nt rb m1) i j =
+      if i < rb ∧ rb ≤ j then
+        get2 nt m1 i j + (-(get2 nt m1 i rb) / get2 nt m1 rb rb) * get2 nt m1 rb j
+      else get2 nt m1 i j := by
+  unfold upAll
+  by_cases h0 : rb = 0
+  · rw [if_pos h0]
+    refine ⟨rfl, RowOps.refl _ (fun _ _ _ _ => rfl), ?_⟩
+    intro i j hj
+    rw [if_neg (by omega)]
+  · rw [if_neg h0]
+    obtain ⟨h1, h2, h3⟩ := up_fold_all (n := n) m1 rb hsz hrb hn hz rb (le_refl _)
+    refine ⟨h1, h2, ?_⟩
+    intro i j hj
+    rw [h3 i j hj]
+    by_cases h : i < rb ∧ rb ≤ j
+    · rw [if_pos h, if_pos ⟨by omega, h.1, h.2⟩]
+    · rw [if_neg h, if_neg (by omega)]
+
+/-- invariant of the back substitution after `t` rows (from the bottom) -/
+structure BackInv (n nt : Nat) (m1 m : Array K) (t : Nat) : Prop where
+  size : m.size = m1.size
+  ops : RowOps n nt (get2 nt m1) (get2 nt m)
+  lz : LowerZero n (get2 nt m) n
+  done : ∀ c, n - t ≤ c → c < n → ∀ i, i < n → get2 nt m i c = if i = c then 1 else 0
+  diag : ∀ i, i < n - t → get2 nt m i i = get2 nt m1 i i
+
+theorem back_fold {n nb : Nat} (tol : K) (m1 : Array K) (hsz : n*(n+nb) ≤ m1.size)
+    (hlz : LowerZero n (get2 (n+nb) m1) n) (hd : ∀ i, i < n → get2 (n+nb) m1 i i ≠ 0)
+    (t : Nat) (ht : t ≤ n) :
+    ∃ m, (List.range t).foldl (backStep tol n nb) (some m1) = some m ∧
+      BackInv n (n+nb) m1 m t := by
+  induction t with
+  | zero =>
+    refine ⟨m1, rfl, rfl, RowOps.refl _ (fun _ _ _ _ => rfl), hlz, ?_, fun _ _ => rfl⟩
+    intro c h1 h2; omega
+  | succ t ih =>
+    obtain ⟨m, hfold, inv⟩ := ih (by omega)
+    rw [List.range_succ, List.foldl_append, hfold]
+    simp only [List.foldl_cons, List.foldl_nil, backStep]
+    have hn : n ≤ n + nb := by omega
+    have hrb : n - t - 1 < n := by omega
+    generalize hrbdef : n - t - 1 = rb at hrb
+    have hrbnt : rb < n + nb := by omega
+    have hszm : n*(n+nb) ≤ m.size := by rw [inv.size]; exact hsz
+    have hp : get2 (n+nb) m rb rb ≠ 0 := by
+      have := inv.diag rb (by omega)
+      show get2 (n+nb) m rb rb ≠ 0
+      rw [this]; exact hd rb hrb
+    have hbeq : (rd m ((n+nb)*rb + rb) == (0:K)) = false := beq_false_of_ne hp
+    rw [hbeq]
+    simp only [Bool.false_eq_true, if_false]
+    obtain ⟨hs2, hg2⟩ := get2_scaleRow (n := n) m rb hszm hrb hn
+    generalize hm2 : scaleRow (n+nb) (n+nb) rb m = m2 at hs2 hg2
+    have hrowz : ∀ j, j < rb → get2 (n+nb) m rb j = 0 :=
+      fun j hj => inv.lz rb j hrb (by omega) hj
+    -- the scaling is a row operation because row rb vanishes left of the diagonal
+    have hops2 : RowOps n (n+nb) (get2 (n+nb) m) (get2 (n+nb) m2) := by
+      refine RowOps.scale _ _ rb (get2 (n+nb) m rb rb) (RowOps.refl _ (fun _ _ _ _ => rfl))
+        hrb hp ?_
+      intro i j hi hj
+      show get2 (n+nb) m2 i j = _
+      rw [hg2 i j hj]
+      by_cases h1 : i = rb
+      · subst h1
+        by_cases h2 : i ≤ j
+        · rw [if_pos ⟨rfl, h2⟩, if_pos rfl]
+        · rw [if_neg (by omega), if_pos rfl]
+          show get2 (n+nb) m i j = get2 (n+nb) m i j / _
+          rw [hrowz j (by omega)]; simp
+      · rw [if_neg (by omega), if_neg h1]
+    have h2rr : get2 (n+nb) m2 rb rb = 1 := by
+      rw [hg2 rb rb hrbnt, if_pos ⟨rfl, le_refl _⟩]; exact div_self hp
+    have h2z : ∀ j, j < rb → get2 (n+nb) m2 rb j = 0 := by
+      intro j hj
+      rw [hg2 rb j (by omega), if_neg (by omega)]; exact hrowz j hj
+    have h2c : ∀ c, rb < c → c < n → get2 (n+nb) m2 rb c = 0 := by
+      intro c h1 h2
+      rw [hg2 rb c (by omega), if_pos ⟨rfl, by omega⟩]
+      have : get2 (n+nb) m rb c = 0 := by
+        have := inv.done c (by omega) h2 rb hrb
+        rw [if_neg (by omega)] at this; exact this
+      rw [this]; simp
+    have h2o : ∀ i j, i ≠ rb → j < n + nb → get2 (n+nb) m2 i j = get2 (n+nb) m i j := by
+      intro i j hi hj
+      rw [hg2 i j hj, if_neg (by omega)]
+    obtain ⟨hs3, hops3, hg3⟩ := upAll_spec (n := n) m2 rb (by rw [hs2]; exact hszm) hrb hn h2z
+    refine ⟨_, rfl, ?_⟩
+    generalize upAll (n+nb) (n+nb) rb m2 = m3 at hs3 hops3 hg3
+    refine ⟨by rw [hs3, hs2, inv.size], (inv.ops.trans hops2).trans hops3, ?_, ?_, ?_⟩
+    · intro i j hi hj hji
+      show get2 (n+nb) m3 i j = 0
+      rw [hg3 i j (by omega), if_neg (by omega)]
+      by_cases h1 : i = rb
+      · rw [h1]; exact h2z j (by omega)
+      · rw [h2o i j h1 (by omega)]; exact inv.lz i j hi hj hji
+    · intro c hc1 hc2 i hi
+      have hcnt : c < n + nb := by omega
+      show get2 (n+nb) m3 i c = _
+      rw [hg3 i c hcnt]
+      by_cases hcr : c = rb
+      · subst hcr
+        by_cases hi1 : i < c
+        · rw [if_pos ⟨hi1, le_refl _⟩, h2rr, if_neg (by omega)]
+          field_simp; ring
+        · rw [if_neg (by omega)]
+          by_cases hi2 : i = c
+          · rw [hi2, h2rr, if_pos rfl]
+          · rw [if_neg hi2, h2o i c hi2 hcnt]
+            exact inv.lz i c hi hc2 (by omega)
+      · have hcgt : rb < c := by omega
+        have hdone := inv.done c (by omega) hc2
+        by_cases hi1 : i < rb
+        · rw [if_pos ⟨hi1, by omega⟩, h2c c hcgt hc2, h2o i c (by omega) hcnt, hdone i hi,
+            if_neg (by omega)]
+          ring
+        · rw [if_neg (by omega)]
+          by_cases hi2 : i = rb
+          · rw [hi2, h2c c hcgt hc2, if_neg (by omega)]
+          · rw [h2o i c hi2 hcnt]; exact hdone i hi
+    · intro i hi
+      show get2 (n+nb) m3 i i = _
+      rw [hg3 i i (by omega), if_neg (by omega), h2o i i (by omega) (by omega)]
+      exact inv.diag i (by omega)
